@@ -182,6 +182,10 @@ def inventory(facts, cg, roots, skip_derived=True):
             continue
         if b.derived and skip_derived:
             continue
+        if b.kind.startswith("Const") or b.kind.startswith("Static") or b.kind in ("AnonConst", "InlineConst"):
+            # initialisers of consts and statics are evaluated by the compiler: a panic there is a build
+            # error, not a run-time panic (the *uses* of the value are ordinary sites of the using function)
+            continue
         analysed.append(n)
         for bb in sorted(b.reachable_blocks()):
             t = b.term(bb)
